@@ -35,6 +35,21 @@ CLAIMED = {
     },
 }
 
+CLAIMED["C20"] = {
+    "category": "exploration",
+    "text": "Senders (real BCURMulti/BCURSingle encode) -> simulated camera channel with frame loss, duplication, rotation, reordering, corruption, cross-talk and relabelling -> naive and collecting receivers calling the real parse: whatever parse returns is bit-for-bit one sender's payload (A1/A2), a clean in-order delivery always reassembles for every length / chunk size / CBOR class (A3), and a looping sender is reassembled within two clean loops after faults stop (A4). Seeded search plus enumeration of every sequence of parts for part counts <= 4 and of every position x replacement character of sampled parts.",
+    "design_ref": "DESIGN.md 5.7, 6 (C20)",
+    "note": "Trusted: CPython, binascii/hashlib, the simulator core; the collecting receiver is harness code. CBOR prefixes are checked for invertibility only. A clean batch is evidence, not proof.",
+    "technique": "deterministic simulation of a lossy one-way frame channel with fault injection; ground-truth oracle on the reassembled payload",
+}
+CLAIMED["C15"] = {
+    "category": "exploration",
+    "text": "Dealer (real generate_shares under a simulated RNG incl. adversarial and replayed streams), n custodians, an arrival channel with loss, duplication, order, word corruption, swaps, truncation and mixing of splits, and a recoverer that attempts recovery between arrivals and reuses one ShareSet with several passphrases: >= k distinct genuine shares alone always recover the exact mnemonic (V1), < k never return (V2), <= 3-word corruption and mixed splits are rejected (V3), anything returned is the original (V4), share text / encryption round-trip and recovery is history-independent (V5). Published SLIP39 vectors serve as shares from another implementation. Seeded search plus enumeration over (k, n) pairs and subset sizes k-1, k, k+1, n.",
+    "design_ref": "DESIGN.md 5.6, 6 (C15)",
+    "note": "Trusted: CPython, hashlib PBKDF2/HMAC, the dealer's own mnemonic as ground truth, the published vectors (data). 2^-32 digest coincidences are treated as impossible. GF(256) table identities are not part of this check.",
+    "technique": "deterministic simulation of dealer/custodians/recoverer with RNG seam and share-channel fault injection; ground-truth oracle",
+}
+
 PENDING = {}
 
 
